@@ -190,7 +190,7 @@ def cases(seed):
         for n_part, ratio in ((32, 1.0), (64, 2.0), (16, 3.0), (15, 1.5), (13, 2.6)):
             for scale in (0.5, 4.0, 40.0, 4000.0):
                 for offset in (0.0, -2e5):
-                    for path in ([0.0], [0.0, 0.0, 0.0], [0.0, 0.0, 0.05, 0.3], [0.0, 0.2, 0.9], [0.0, 0.5, 0.9995], [0.0, 0.4, 0.99995]):
+                    for path in ([0.0], [0.0, 0.0, 0.0], [0.0, 0.0, 0.05, 0.3], [0.0, 0.2, 0.9], [0.0, 0.5, 0.9995], [0.0, 0.4, 0.99995], [0.0, 0.3]):
                         out.append(dict(d=d, n_part=n_part, ratio=ratio, scale=scale, offset=offset, path=path))
     return out, rng
 
